@@ -242,4 +242,67 @@ def procStep {H : Type} [DecidableEq H] (cfg : Cfg) (pc : PCfg) (f : HashFns H) 
   if keylessNew sg s p u then (p, if pc.keyGuard then .noRoute else .panic)
   else procStepCore cfg pc f rs sg s p u sender
 
+/-! ## processor.go: task accounting (`concurrentTasksBounds`, `increaseTasks` / `decreaseTask`) -/
+
+/-- `concurrentTasksBounds`. -/
+structure Bounds where
+  maxWorkers : Nat
+  maxPerPublisher : Nat
+  deriving DecidableEq, Repr
+
+/-- The values `NewProcessor` sets. -/
+def Bounds.real : Bounds := ⟨1000, 250⟩
+
+/-- The processor with its task counters: `tasks` and `publisherTasks`. -/
+structure TProc (H : Type) where
+  core : Proc H
+  tasks : Nat
+  ptasks : Bytes → Nat
+
+def TProc.empty {H : Type} : TProc H := ⟨Proc.empty, 0, fun _ => 0⟩
+
+/-- `ProcessMessage` is about to call `createSubprocessor` and reach `increaseTasks`: the key is not
+finalized, no subprocessor exists for it, the local shard index for the publisher is known and (since
+76dcbab) the publisher's key can be extracted — the checks `createSubprocessor` makes BEFORE it
+takes a task slot. -/
+def wouldCreate {H : Type} [DecidableEq H] (pc : PCfg) (sg : SigScheme H) (s : Sched) (p : Proc H)
+    (u : PUnit H) : Bool :=
+  !p.finalized.contains (keyOf u) &&
+  (match s.shardIndexFor (keyOf u).publisher with | .ok _ => true | .error _ => false) &&
+  (p.findSub (keyOf u)).isNone && !(pc.keyGuard && !sg.hasKey (keyOf u).publisher)
+
+def bump (m : Bytes → Nat) (P : Bytes) : Bytes → Nat := fun q => if q = P then m q + 1 else m q
+def drop1 (m : Bytes → Nat) (P : Bytes) : Bytes → Nat := fun q => if q = P then m q - 1 else m q
+
+/-- `procStep` with the task accounting of processor.go:
+* `increaseTasks` when a subprocessor is created — refused (`ProcessMessage` returns an error, no
+  subprocessor) when the publisher's count EQUALS `maxWorkersPerPublisher` or the total equals
+  `maxWorkers`;
+* `decreaseTask` when `Run` is told that a subprocessor ended: `finalize` and `discard` alike.
+A subprocessor that is created and ends in the same step (its first unit is invalid, or completes
+the receive threshold) takes and releases its slot. -/
+def tprocStep {H : Type} [DecidableEq H] (b : Bounds) (cfg : Cfg) (pc : PCfg) (f : HashFns H) (rs : RS)
+    (sg : SigScheme H) (s : Sched) (tp : TProc H) (u : PUnit H) (sender : Bytes) :
+    TProc H × ProcOut H :=
+  if wouldCreate pc sg s tp.core u then
+    if tp.ptasks (keyOf u).publisher = b.maxPerPublisher ∨ tp.tasks = b.maxWorkers then (tp, .noRoute)
+    else
+      match procStep cfg pc f rs sg s tp.core u sender with
+      | (p', .handled bc bu none) =>
+        (⟨p', tp.tasks + 1, bump tp.ptasks (keyOf u).publisher⟩, .handled bc bu none)
+      | (p', out) => (⟨p', tp.tasks, tp.ptasks⟩, out)
+  else
+    match procStep cfg pc f rs sg s tp.core u sender with
+    | (p', .handled bc bu (some e)) =>
+      (⟨p', tp.tasks - 1, drop1 tp.ptasks (keyOf u).publisher⟩, .handled bc bu (some e))
+    | (p', out) => (⟨p', tp.tasks, tp.ptasks⟩, out)
+
+/-- The subprocessor of `key` reaches its time-out (`StaleMessageTimeout`): `Run` returns the context
+error, `Processor.Run` finalizes the key (cache, forget the subprocessor, release the slot). -/
+def tprocExpire {H : Type} [DecidableEq H] (tp : TProc H) (key : MsgKey H) : TProc H :=
+  match tp.core.findSub key with
+  | none => tp
+  | some _ =>
+    ⟨⟨key :: tp.core.finalized, (tp.core.dropSub key).subs⟩, tp.tasks - 1, drop1 tp.ptasks key.publisher⟩
+
 end Juno.C19
